@@ -98,12 +98,17 @@ pub struct LwEnv {
     pub slow_delta: u64,
     /// fuel per API call
     pub fuel: u64,
+    /// lasting change of the link or of the application cadence, chosen like a blackout: from one round of the window on
+    pub shifts: &'static [Shift],
 }
+
+#[derive(Clone, Copy, Debug, PartialEq)]
+pub enum Shift { Latency(usize), Cadence(u64) }
 
 impl LwEnv {
     pub fn name(&self) -> String {
         format!("f{}d{:?}dev{}+{}max{}{}{}bl{}", self.fates.len(), self.deltas, self.dev_start, self.dev_rounds, self.max_rounds,
-            if self.skip_choice { "S" } else { "" }, if self.flush_choice { "F" } else { "" }, self.blackouts.len())
+            if self.skip_choice { "S" } else { "" }, if self.flush_choice { "F" } else { "" }, self.blackouts.len()) + &(if self.shifts.is_empty() { String::new() } else { format!("sh{}", self.shifts.len()) })
     }
 }
 
@@ -133,6 +138,7 @@ pub struct Trace {
     pub idle_end: bool,
     pub last_dev_round: usize,
     pub blackout: Option<(usize, u8, usize)>,
+    pub shift: Option<(usize, Shift)>,
 }
 
 pub struct FS(pub Vec<Vec<u8>>);
@@ -217,10 +223,18 @@ pub fn run_lw(cfg: &LwCfg, si: &ScriptInfo, env: &LwEnv, ch: &mut Chooser, mut i
         if c > 0 { let k = c - 1; let (mask, len) = env.blackouts[k % env.blackouts.len()]; blackout = Some((env.dev_start + k / env.blackouts.len(), mask, len)); }
     }
     tr.blackout = blackout;
+    let mut shift: Option<(usize, Shift)> = None;
+    if !env.shifts.is_empty() {
+        let c = ch.choose(env.shifts.len() * env.dev_rounds + 1);
+        if c > 0 { let k = c - 1; shift = Some((env.dev_start + k / env.shifts.len(), env.shifts[k % env.shifts.len()])); }
+    }
+    tr.shift = shift;
     for round in 0..env.max_rounds {
         let dev = round >= env.dev_start && round < env.dev_start + env.dev_rounds;
         let dsel = if dev { ch.choose(env.deltas.len()) } else { usize::MAX };
-        let delta = if dsel == usize::MAX { if round >= env.slow_after { env.slow_delta } else { env.fair_delta } } else { env.deltas[dsel] };
+        let mut delta = if dsel == usize::MAX { if round >= env.slow_after { env.slow_delta } else { env.fair_delta } } else { env.deltas[dsel] };
+        let mut latency = cfg.latency;
+        if let Some((r0, sh)) = shift { if round >= r0 { match sh { Shift::Latency(l) => latency = l, Shift::Cadence(c) => if dsel == usize::MAX || dsel == 0 { delta = c; } } } }
         if dsel != usize::MAX && dsel != 0 { tr.last_dev_round = round; }
         now += delta; set_time_ms(now);
         let skip = if dev && env.skip_choice { ch.choose(3) } else { 0 };
@@ -259,7 +273,7 @@ pub fn run_lw(cfg: &LwCfg, si: &ScriptInfo, env: &LwEnv, ch: &mut Chooser, mut i
                         let fate = if in_blackout { Fate::Drop } else if dev && env.fates.len() > 1 { let k = ch.choose(env.fates.len()); if k != 0 { tr.last_dev_round = round; } env.fates[k] } else { Fate::Deliver };
                         let em = tr.ems.len();
                         tr.ems.push(Em { side, round, t_ms: now, len: f.len(), frame: parsed, fate, step_no: step_no[side] });
-                        let l = cfg.latency;
+                        let l = latency;
                         let mut push = |due: usize, bytes: Vec<u8>, seq: &mut usize| { nets[other].push(InFlight { due, seq: *seq, em, bytes }); *seq += 1; };
                         match fate {
                             Fate::Deliver => push(round + l, f, &mut seq),
@@ -420,6 +434,43 @@ pub fn oracle_c02_live(si: &ScriptInfo, tr: &Trace, clause: &str) -> Option<Viol
         if o.sbs != 0 { return Some(viol(clause, format!("{}:sbs", clause), format!("side {} reports send_buffer_size()={} at the horizon (t={} ms)", o.side, o.sbs, o.t_ms))); }
     }
     None
+}
+
+/// C11: after the fault phase, every packet submitted from `probe_round` on in Unreliable,
+/// Persistent or Reliable mode is delivered exactly once by the horizon, nothing is pending, and the
+/// earlier Reliable packets have been delivered too (no permanent stall).
+pub fn oracle_c11(si: &ScriptInfo, tr: &Trace, probe_round: usize) -> Vec<Violation> {
+    let mut out = Vec::new();
+    let what = format!("fault: blackout {:?} shift {:?}, last deviation in round {}", tr.blackout, tr.shift, tr.last_dev_round);
+    for (i, o) in si.ops.iter().enumerate() {
+        if let OpKind::Send { mode, ch, size } = o.kind {
+            let must = mode == SendMode::Reliable || (o.round >= probe_round && mode != SendMode::TimeSensitive);
+            if !must { continue; }
+            let n = tr.dels.iter().filter(|d| d.side == 1 - o.side && d.sub == Some(i)).count();
+            if n != 1 {
+                let last = tr.obs.last().unwrap();
+                let sender = tr.obs.iter().filter(|x| x.side == o.side).last().unwrap();
+                let sig = format!("C11.live:{}", if o.round >= probe_round { "probe-undelivered" } else { "reliable-undelivered" });
+                if !out.iter().any(|v: &Violation| v.sig == sig) {
+                    out.push(viol("C11.live", sig, format!("{:?} packet ch{} {} B submitted in round {} was delivered {} times by the horizon (t={} ms, {} rounds); sender rate {} B/s, rtt {:?}, pending {}; {}", mode, ch, size, o.round, n, last.t_ms, tr.rounds, sender.probe.send_rate, sender.rtt, sender.pending, what)));
+                }
+            }
+        }
+    }
+    // Data may legitimately still be in flight at the horizon (TFRC recovers slowly when both
+    // directions carry data), but a sender that has made no progress at all since the probes were
+    // submitted is stalled.
+    let n = tr.obs.len();
+    for o in &tr.obs[n - 2..] {
+        if !(o.pending || o.sbs != 0) { continue; }
+        let at_probe = tr.obs.iter().filter(|x| x.side == o.side && x.round >= probe_round + 6).next();
+        if let Some(p) = at_probe {
+            if tr.rounds > probe_round + 1000 && o.sbs >= p.sbs && o.probe.tx_packet_base == p.probe.tx_packet_base && o.probe.tx_frame_next == p.probe.tx_frame_next {
+                out.push(viol("C11.live", "C11.live:no-progress".into(), format!("side {} has made no progress between the probes (t={} ms) and the horizon (t={} ms): send_buffer_size {}, no frame sent, rate {} B/s; {}", o.side, p.t_ms, o.t_ms, o.sbs, o.probe.send_rate, what)));
+            }
+        }
+    }
+    out
 }
 
 /// C05: on an ideal network the global delivery sequence equals the submission sequence with
